@@ -16,7 +16,7 @@ KINDS = {
     "C06": {"hang", "items"},
     "C07": {"compile", "compile_kind"},
     "C08": {"optdiff", "facts", "lowering"} | SEM,
-    "C09": {"class"},
+    "C09": set(SEM) | {"class"},
     "C10": set(SEM) | {"unicode"},
     "C11": set(SEM) | {"repl", "weakspan", "weakend"},
     "C12": set(SEM) | {"repl", "weakspan", "weakend"},
@@ -132,6 +132,7 @@ def plan(prop, tier):
                   invs=["T1_RoundTrip"]),
                 G("brefi", Leaves="<-LvBrefI", Quants="<-QBasic", MaxSize=4, MaxLen=3, FlagSets="<-FlagsI", Alpha="{97, 65, 98}",
                   invs=["T1_RoundTrip"]),                                   # back-references near the end of the input, both case modes
+                G("fixed", Leaves="<-LvOptFix", Quants="<-QFix", MaxSize=3, MaxLen=4 if q else 5, invs=["T1_RoundTrip"]),   # strides of fixed-length repeats
                 T("mut", "general", 2000, 40000, mode="mutants"), T("garbage", "general", 2000, 60000, mode="garbage"),
                 T("bounds", "general", 2200, 21000, mode="bounds"), T("rand", "groups", 1500, 30000),
                 T("dial", "dialect", 1000, 20000, mode="mutants")] + ([] if q else [SUITE])
@@ -147,16 +148,18 @@ def plan(prop, tier):
         return [K("tok", Toks='"core"', MaxToks=4 if q else 5),
                 K("wide", Toks='"wide"', MaxToks=3 if q else 4),
                 K("class", Toks='"class"', MaxToks=5 if q else 6),
-                K("grp", Toks='"grp"', MaxToks=6 if q else 7),
+                K("grp", Toks='"grp"', MaxToks=6),
                 K("bref10", Toks='"bref10"', MaxToks=4 if q else 5, Alpha="{97, 48, 49}", MaxLen=2, invs=[]),
                 K("flags", Mode='"flags"', MaxToks=3),
                 K("tokx", Toks='"xws"', MaxToks=4 if q else 5, FlagAlpha='"x"'),
+                K("tokxcat", Toks='"xcat"', MaxToks=5 if q else 6, FlagAlpha='"x"', Alpha="{97, 32, 93}"),
                 G("valid", Leaves="<-LvAll", Quants="<-QAll", MaxSize=3, MaxLen=1, invs=["T1_RoundTrip"]),
                 T("mut", "general", 2000, 40000, mode="mutants"), T("rand", "classes", 1000, 20000)]
     if prop == "C13":
         return [K("lit", Mode='"lit"', Toks='"meta"', MaxToks=2 if q else 3, invs=["T10_QLiteral"]),
                 K("litov", Mode='"lit"', Toks='"ab"', MaxToks=4 if q else 5, LitFlags='"qi"', invs=["T10_QLiteral"]),
                 K("litparen", Mode='"lit"', Toks='"paren"', MaxToks=4 if q else 5, LitFlags='"qi"', invs=["T10_QLiteral"]),
+                K("litsigma", Mode='"lit"', Toks='"sigma"', MaxToks=3 if q else 4, LitFlags='"qi"', invs=["T10_QLiteral"]),
                 T("rand", "repl", 1500, 30000)]
     if prop == "C15":
         return [R("repl", 3 if q else 4), T("rand", "repl", 2000, 40000)]
@@ -186,7 +189,9 @@ def plan(prop, tier):
                 {"type": "facts", "tag": "facts", "profiles": [("general", 400, 6000), ("anchors", 300, 4000), ("case", 300, 4000)]}]
     if prop == "C09":
         return [{"type": "classes", "tag": "cls", "nrand": 300 if q else 3000, "full": 150 if q else 1200},
-                K("class", Toks='"class"', MaxToks=4 if q else 6)]
+                K("class", Toks='"class"', MaxToks=4 if q else 6),
+                G("wscls", Leaves="<-LvWsCls", Quants="<-QOptOnly", MaxSize=2, MaxLen=2, Variants='{"base", "ws"}', Alpha="{97, 32, 93, 9}",
+                  invs=["T1_RoundTrip", "T11_XStrip"])]                  # class members that are white space, with and without flag x
     if prop == "C10":
         return [{"type": "unicode", "tag": "uni"}, T("names", "classes", 200, 2000, mode="names"),
                 T("pairs", "classes", 800, 6000, mode="escpairs")]
@@ -215,6 +220,8 @@ def plan(prop, tier):
     if prop == "C14":
         return [G("ws", Leaves="<-LvWs", Quants="<-QSmall" if q else "<-QAll", MaxSize=3, MaxLen=2 if q else 3, Variants='{"ws"}',
                   invs=["T1_RoundTrip", "T11_XStrip"]),
+                G("wscls", Leaves="<-LvWsCls", Quants="<-QOptOnly", MaxSize=2, MaxLen=2, Variants='{"ws"}', Alpha="{97, 32, 93, 9}",
+                  invs=["T1_RoundTrip", "T11_XStrip"]),                 # white space INSIDE classes is a member: inputs contain it
                 G("ws2", Leaves="<-LvWs", Quants="<-QBasic", MaxSize=2, MaxLen=2, Variants='{"ws2"}', invs=["T1_RoundTrip"]),
                 G("wsnest", Leaves="<-LvWsNest", Quants="<-QNone", Shapes="<-ShapesGrpSeq", MaxSize=3 if q else 4, MaxGroups=4, MaxLen=2,
                   Variants='{"ws"}', invs=["T1_RoundTrip", "T11_XStrip"]),
@@ -233,6 +240,7 @@ def plan(prop, tier):
                   invs=["T1_RoundTrip"]),
                 G("dial", Leaves="<-LvDial", Quants="<-QSmall", MaxSize=3 if q else 4, MaxLen=3, FlagSets="<-FlagsS",
                   Alpha="{97, 10}", Variants='{"base", "xsd"}', invs=THEOREMS + ["T13_Dialect"]),
+                G("wsxsd", Leaves="<-LvWs", Quants="<-QBasic", MaxSize=2, MaxLen=2, Variants='{"ws", "wsxsd"}', Alpha="{97, 32}", invs=["T1_RoundTrip"]),
                 G("xsdcaps", Leaves="<-LvAB", Quants="<-QBasic", MaxSize=4, MaxGroups=2, MaxLen=3, Repl2="<-ReplGroups",
                   Variants='{"base", "xsd"}', invs=["T1_RoundTrip", "T13_Dialect"]),      # groups and their captures under both dialects
                 T("rand", "dialect", 2000, 40000)]
@@ -241,6 +249,8 @@ def plan(prop, tier):
                                                         "PoolName": '"small"'}},
                 {"type": "apisim", "tag": "sim", "num": 1000 if q else 8000, "depth": 14,
                  "consts": {"Depth": 14, "RegIds": "{1, 2, 3}", "ItIds": "{1, 2, 3}", "PoolName": '"wide"'}},
+                {"type": "apisim", "tag": "simzl", "num": 300 if q else 3000, "depth": 9,
+                 "consts": {"Depth": 9, "RegIds": "{1}", "ItIds": "{1, 2}", "PoolName": '"zl"'}},
                 T("threads", "general", 800, 15000, mode="threads")] + ([] if q else [SUITE])
     if prop == "C19":
         return [dict(G("bref", Leaves="<-LvBref", Quants="<-QSmall", MaxSize=5, MaxLen=4 if q else 5,
